@@ -711,6 +711,9 @@ struct Stream {
     delivery: Vec<(usize, bool)>, // (item, is_duplicate_delivery)
     stats: StreamStats,
     ssrcs: Vec<u32>,
+    /// (delivery position, seconds): before that delivery every receive context of the rustrtc
+    /// receivers is made `seconds` older (H4 `verif_age_contexts`); empty for ordinary streams
+    ages: Vec<(usize, u64)>,
 }
 
 fn interleave(rng: &mut Rng, lists: Vec<Vec<(usize, bool)>>) -> Vec<(usize, bool)> {
@@ -912,7 +915,146 @@ fn gen_stream(rng: &mut Rng, n_ssrc: usize, n_rtp: usize, n_rtcp: usize, mode: &
         .into_iter()
         .map(|(i, d)| (new_pos[i], d))
         .collect();
-    Stream { items: ordered, delivery, stats: st, ssrcs }
+    Stream { items: ordered, delivery, stats: st, ssrcs, ages: vec![] }
+}
+
+/// "SSRC churn over a long call": more genuine SSRCs than the 32-context watermark, a few of
+/// them ACTIVE for the whole history (the first one RTP-only and across at least one 2^16 wrap),
+/// the others heard a few times and then silent. Then time passes (all contexts are aged through
+/// H4, in one step of > 60 s or in two steps that only add up to > 60 s for the silent ones); after
+/// every step each active stream receives a packet before anything else happens, so it has never
+/// been silent for 60 s. Then never-seen genuine SSRCs show up (RTP or RTCP first) while the
+/// active streams go on. Everything is delivered in order, so every delivery is inside the
+/// statement's tolerance and the first packet of every SSRC is sent at ROC 0.
+fn gen_aged_stream(rng: &mut Rng, n_old: usize, small: bool) -> Stream {
+    let n_new = rng.range(1, 3) as usize;
+    let ssrcs = gen_ssrcs(rng, n_old + n_new);
+    let (old, newc) = ssrcs.split_at(n_old);
+    let n_active = (rng.range(1, 3) as usize).min(n_old);
+    let mut st = StreamStats::default();
+    let mut items: Vec<Item> = vec![];
+    struct Src {
+        ssrc: u32,
+        idx: u64,
+        rtcp_idx: u64,
+        fit: bool,
+        with_rtcp: bool,
+    }
+    let push_rtp = |rng: &mut Rng, s: &mut Src, step: u64, items: &mut Vec<Item>, st: &mut StreamStats| {
+        let (p, fit, ek) = gen_rtp(rng, s.ssrc, s.idx as u16, small, false);
+        let plain = raw_rtp(&p);
+        let hdr_len = rtp_hdr_len(&p);
+        s.fit = s.fit && fit && ref_parses_header(&plain, hdr_len);
+        st.delivered += 1;
+        st.max_roc = st.max_roc.max(s.idx >> 16);
+        items.push(Item { ssrc: s.ssrc, rtcp: false, index: s.idx, pkt: Some(p), plain, hdr_len, ref_fit: s.fit, ext_kind: ek });
+        s.idx += step.max(1);
+    };
+    let push_rtcp = |rng: &mut Rng, s: &mut Src, items: &mut Vec<Item>, st: &mut StreamStats| {
+        s.rtcp_idx += 1;
+        st.delivered += 1;
+        let plain = gen_rtcp(rng, s.ssrc, small);
+        items.push(Item { ssrc: s.ssrc, rtcp: true, index: s.rtcp_idx, pkt: None, plain, hdr_len: 8, ref_fit: true, ext_kind: "rtcp" });
+    };
+    let step = |rng: &mut Rng| match rng.below(10) {
+        0 => rng.range(2, 40),
+        1 => rng.range(20000, 32767),
+        _ => 1,
+    };
+    // ---- phase 1: every old SSRC is heard; the active ones cross a wrap
+    let mut srcs: Vec<Src> = vec![];
+    let mut lists: Vec<Vec<(usize, bool)>> = vec![]; // (index into `pre`, unused)
+    let mut pre: Vec<Item> = vec![];
+    for (k, &ssrc) in old.iter().enumerate() {
+        let active = k < n_active;
+        let start = if active && (k == 0 || rng.chance(2, 3)) {
+            rng.range(65400, 65535)
+        } else if rng.chance(1, 4) {
+            rng.range(65500, 65535)
+        } else {
+            rng.below(65536)
+        };
+        let mut s = Src { ssrc, idx: start, rtcp_idx: 0, fit: true, with_rtcp: active && k != 0 && rng.chance(1, 3) };
+        let mut own = vec![];
+        let n = if active { rng.range(6, 30) } else { rng.range(1, 6) };
+        let (mut sent, mut after_wrap) = (0u64, 0u64);
+        // the first active stream always ends phase 1 with ROC >= 1 (and a few packets beyond)
+        loop {
+            let done = if k == 0 { sent >= n && after_wrap >= 3 } else { sent >= n };
+            if done || sent > 5000 {
+                break;
+            }
+            own.push((pre.len(), false));
+            let d = if k == 0 && (s.idx >> 16) == 0 && sent >= n { rng.range(1, 200) } else { step(rng) };
+            if s.idx >> 16 >= 1 {
+                after_wrap += 1;
+            }
+            push_rtp(rng, &mut s, d, &mut pre, &mut st);
+            sent += 1;
+            if s.with_rtcp && rng.chance(1, 6) {
+                own.push((pre.len(), false));
+                push_rtcp(rng, &mut s, &mut pre, &mut st);
+            }
+        }
+        lists.push(own);
+        srcs.push(s);
+    }
+    let order = interleave(rng, lists);
+    let mut slots: Vec<Option<Item>> = pre.into_iter().map(Some).collect();
+    for (i, _) in order {
+        if let Some(it) = slots[i].take() {
+            items.push(it);
+        }
+    }
+    // ---- phase 2: time passes; actives first after every step
+    let mut ages: Vec<(usize, u64)> = vec![];
+    let steps: Vec<u64> = match rng.below(3) {
+        0 => vec![rng.range(61, 600)],
+        1 => vec![rng.range(31, 59), rng.range(31, 59)],
+        _ => vec![rng.range(5, 59), rng.range(61, 90)],
+    };
+    let mut active: Vec<usize> = (0..n_active).collect();
+    let burst = |rng: &mut Rng, srcs: &mut Vec<Src>, active: &[usize], lo: u64, hi: u64, items: &mut Vec<Item>, st: &mut StreamStats| {
+        // every active stream at least `lo` RTP packets, interleaved
+        let mut left: Vec<(usize, u64)> = active.iter().map(|a| (*a, rng.range(lo, hi))).collect();
+        while !left.is_empty() {
+            let j = rng.usize_below(left.len());
+            let a = left[j].0;
+            let d = if rng.chance(1, 8) { rng.range(2, 40) } else { 1 };
+            push_rtp(rng, &mut srcs[a], d, items, st);
+            left[j].1 -= 1;
+            if left[j].1 == 0 {
+                left.swap_remove(j);
+            }
+        }
+    };
+    for secs in steps {
+        ages.push((items.len(), secs));
+        // (RTP only here: the first packet of each active stream after the pause)
+        burst(rng, &mut srcs, &active, 1, 3, &mut items, &mut st);
+        for a in &active {
+            if srcs[*a].with_rtcp && rng.chance(1, 3) {
+                push_rtcp(rng, &mut srcs[*a], &mut items, &mut st);
+            }
+        }
+    }
+    for &ssrc in newc {
+        let mut s = Src { ssrc, idx: rng.below(65536), rtcp_idx: 0, fit: true, with_rtcp: true };
+        if rng.chance(1, 3) {
+            push_rtcp(rng, &mut s, &mut items, &mut st);
+        } else {
+            push_rtp(rng, &mut s, 1, &mut items, &mut st);
+        }
+        srcs.push(s);
+        let me = srcs.len() - 1;
+        burst(rng, &mut srcs, &active, 2, 6, &mut items, &mut st);
+        if rng.bool() {
+            // the newcomer stays
+            active.push(me);
+        }
+    }
+    let delivery = (0..items.len()).map(|i| (i, false)).collect();
+    Stream { items, delivery, stats: st, ssrcs, ages }
 }
 
 fn item_json(it: &Item) -> Value {
@@ -956,7 +1098,11 @@ fn run_c04_stream(sc: &Value) -> Obs {
     let mode = sc["mode"].as_str().unwrap_or("mixed").to_string();
     let small = sc["small"].as_bool().unwrap_or(false);
     let keys = gen_keys(&mut rng, prof);
-    let stream = gen_stream(&mut rng, n_ssrc, n_rtp, n_rtcp, &mode, small);
+    let stream = if sc["aged"].as_bool().unwrap_or(false) {
+        gen_aged_stream(&mut rng, n_ssrc, small)
+    } else {
+        gen_stream(&mut rng, n_ssrc, n_rtp, n_rtcp, &mode, small)
+    };
 
     let (mut a, mut b, mut b2) = match (
         session(prof, &keys.k1, &keys.k2),
@@ -1117,6 +1263,16 @@ fn run_c04_stream(sc: &Value) -> Obs {
     for (pos, (i, dup)) in stream.delivery.iter().enumerate() {
         let it = &stream.items[*i];
         let proto = if it.rtcp { "rtcp" } else { "rtp" };
+        for (_, secs) in stream.ages.iter().filter(|(p, _)| *p == pos) {
+            // time passes at the receivers (the independent implementation keeps no clock)
+            let d = std::time::Duration::from_secs(*secs);
+            if !(b.verif_age_contexts(d) && b2.verif_age_contexts(d)) {
+                o.harness_problem("verif_age_contexts: monotonic clock too young to go back that far");
+                return o;
+            }
+            o.count("receiver_contexts_aged", 1);
+            o.seen("receiver_table_size_when_aged", format!("{}", b.verif_rx_snapshot().len().min(99)));
+        }
         // (1) rustrtc -> rustrtc
         if let Some(w) = a_out[*i].as_ref() {
             let (tag, good) = if it.rtcp {
@@ -1819,7 +1975,7 @@ fn make_forgery(rng: &mut Rng, rig: &Rig, pool: &[Gen], force_new_ssrc: bool) ->
     let prof = rig.prof;
     let rtp_pool: Vec<&Gen> = pool.iter().filter(|g| !g.rtcp).collect();
     let rtcp_pool: Vec<&Gen> = pool.iter().filter(|g| g.rtcp).collect();
-    let family = if force_new_ssrc { *rng.pick(&[0u64, 1, 5]) } else { rng.below(14) };
+    let family = if force_new_ssrc { *rng.pick(&[0u64, 1, 5, 5, 14, 15]) } else { rng.below(14) };
     let want_rtcp = rng.chance(2, 5);
     let src: Option<&Gen> = if want_rtcp && !rtcp_pool.is_empty() {
         Some(*rng.pick(&rtcp_pool))
@@ -1975,6 +2131,42 @@ fn make_forgery(rng: &mut Rng, rig: &Rig, pool: &[Gen], force_new_ssrc: bool) ->
             }
             (b, g.rtcp, "zero_tag")
         }
+        14 => {
+            // a well-formed packet on a never-seen SSRC, protected under another key
+            let g = src?;
+            let s = fresh_ssrc(rng, &rig.ssrcs);
+            let k = if rng.bool() { rig.keys.k2.clone() } else { (rng.bytes(16), rng.bytes(prof.salt_len())) };
+            let mut evil = session(prof, &k, &k).ok()?;
+            let b = if g.rtcp {
+                let mut plain = g.plain.clone();
+                plain[4..8].copy_from_slice(&s.to_be_bytes());
+                tx_rtcp(&mut evil, &plain).ok()?
+            } else {
+                let mut p = g.pkt.as_ref()?.clone();
+                p.header.ssrc = s;
+                tx_rtp(&mut evil, &p).ok()?
+            };
+            detail = json!({"ssrc": s});
+            (b, g.rtcp, "wrong_key.new_ssrc")
+        }
+        15 => {
+            // genuine packet moved to a never-seen SSRC with tag zeroed / tail cut
+            let g = src?;
+            let s = fresh_ssrc(rng, &rig.ssrcs);
+            let mut b = g.prot.clone();
+            let off = if g.rtcp { 4 } else { 8 };
+            b[off..off + 4].copy_from_slice(&s.to_be_bytes());
+            let n = b.len();
+            if rng.bool() {
+                for x in &mut b[n.saturating_sub(4)..] {
+                    *x = 0;
+                }
+            } else {
+                b.truncate(n - (rng.range(1, 4) as usize).min(n - 1));
+            }
+            detail = json!({"ssrc_from": g.ssrc, "ssrc_to": s});
+            (b, g.rtcp, "ssrc_rewrite.new_damaged")
+        }
         _ => {
             let g = src?;
             let mut b = g.prot.clone();
@@ -2110,8 +2302,9 @@ fn run_interleave(sc: &Value) -> Obs {
         None
     };
     let mut state_viol_before = 0usize;
-    // SSRCs whose context disappeared from R1's table at some point (R0 never evicts here: it
-    // holds at most n_ssrc <= 30 contexts, below the 32-context watermark)
+    // SSRCs whose context disappeared from R1's table at some point (R0 evicts only when a GENUINE
+    // never-seen SSRC verifies after the ageing while it holds more than 32 contexts; R1 then does
+    // the same, and both reject the evicted wrapped streams alike – counted, not judged here)
     let mut evicted_in_r1: HashSet<u32> = HashSet::new();
     let note_evictions = |before: &Snap, after: &Snap, set: &mut HashSet<u32>| {
         for s in before.keys() {
@@ -2140,13 +2333,14 @@ fn run_interleave(sc: &Value) -> Obs {
                 return o;
             }
             o.count("aged_receivers", 1);
-            let burst = 36usize.saturating_sub(cur1.len()) + rng.range(0, 8) as usize;
+            let burst = (36usize.saturating_sub(cur1.len()) + rng.range(0, 8) as usize).max(3);
             let mut made = 0;
             let mut tries = 0;
             while made < burst && tries < burst * 5 {
                 tries += 1;
                 if let Some(f) = make_forgery(&mut rng, &rig, &gens, true) {
                     made += 1;
+                    o.seen("forgery_kinds_on_never_seen_ssrc_after_ageing", f.kind.clone());
                     let before = cur1.clone();
                     deliver_forged(&mut o, &mut r1, &mut cur1, f.rtcp_api, prof, &f.bytes, &f.kind, f.detail);
                     note_evictions(&before, &cur1, &mut evicted_in_r1);
@@ -2288,6 +2482,17 @@ fn c04_scenarios(args: &Args) -> Vec<Value> {
             v.push(json!({"kind": "rtcp_long", "profile": prof.name(), "rng": rng.next_u64(), "n": if thorough { 140_000 } else { 67_000 }}));
         }
     }
+    // SSRC churn + passing time: more genuine SSRCs than the context watermark, long-lived wrapped
+    // streams among them, all contexts aged past the inactivity threshold, then newcomers
+    // (own generator state, so the scenarios above are the same as before this family existed)
+    let mut rng = Rng::new(args.seed).fork(0x1c04);
+    for prof in Prof::ALL {
+        for _ in 0..5 * mult {
+            let n_ssrc = if rng.chance(1, 6) { rng.range(4, 32) } else { rng.range(33, 42) };
+            v.push(json!({"kind": "stream", "aged": true, "profile": prof.name(), "rng": rng.next_u64(), "mode": "aged",
+                "n_ssrc": n_ssrc, "n_rtp": 0, "n_rtcp": 0, "small": true}));
+        }
+    }
     v
 }
 
@@ -2318,6 +2523,17 @@ fn c05_scenarios(args: &Args) -> Vec<Value> {
             v.push(json!({"kind": "interleave", "profile": prof.name(), "rng": rng.next_u64(), "age": true,
                 "n_ssrc": if rng.chance(1, 5) { rng.range(20, 30) } else { rng.range(2, 6) }, "n_rtp": rng.range(40, 120), "n_rtcp": 6,
                 "mode": *rng.pick(&["wrapheavy", "mixed", "wrapheavy"]), "rate": *rng.pick(&[0u64, 10, 30])}));
+        }
+    }
+    // aged runs whose GENUINE contexts alone are above the 32-context watermark (some wrapped):
+    // after the ageing only forged packets on never-seen SSRCs arrive, then the genuine streams go on
+    // (own generator state, so the scenarios above are the same as before this family existed)
+    let mut rng = Rng::new(args.seed).fork(0x1c05);
+    for prof in Prof::ALL {
+        for _ in 0..(if thorough { 200 } else { 20 }) {
+            v.push(json!({"kind": "interleave", "profile": prof.name(), "rng": rng.next_u64(), "age": true,
+                "n_ssrc": rng.range(34, 42), "n_rtp": rng.range(8, 20), "n_rtcp": rng.range(0, 3),
+                "mode": *rng.pick(&["wrapheavy", "mixed", "wrapheavy"]), "rate": *rng.pick(&[0u64, 0, 5, 15])}));
         }
     }
     v
@@ -2360,14 +2576,14 @@ pub fn run(args: &Args) -> i32 {
     let rule = if is_c04 {
         "scenario = (a) one chunk of the (s_l,SEQ) plane x one ROC for the rollover estimate, non-trivial when the RFC model \
          takes a ROC+1/ROC-1 branch inside it; (b) one generated multi-SSRC RTP+RTCP stream (profile, keys, header shapes, \
-         sequence history with loss/reorder/duplicates inside +/-(2^15-1), wraps) pushed through rustrtc->rustrtc, \
+         sequence history with loss/reorder/duplicates inside +/-(2^15-1), wraps; or an SSRC-churn history: up to 42 genuine SSRCs with long-lived wrapped streams, all receive contexts aged past the 60 s inactivity threshold, then never-seen SSRCs while the live streams continue) pushed through rustrtc->rustrtc, \
          rustrtc->independent, independent->rustrtc; non-trivial when a cross-implementation check ran AND the history had \
          a reordered delivery or reached ROC>=1. distinct = hash of the scenario JSON (contains the generator state)."
     } else {
         "scenario = one receiver with an accepted genuine history attacked by (a) every single-bit flip of one protected \
          packet, (b) every truncation / 20 extensions, (c) 800 generated forgeries of 14 families, or (d) a genuine multi-SSRC \
-         stream delivered to two receivers, one of which also gets forgeries interleaved (optionally after ageing all contexts \
-         by 61 s and a burst of forged new SSRCs). non-trivial when >=1 forged packet was rejected by the real unprotect code \
+         stream (1..42 SSRCs) delivered to two receivers, one of which also gets forgeries interleaved (optionally after ageing all contexts \
+         by 61 s and a burst of forged packets on never-seen SSRCs, with the genuine contexts alone below or above the 32-context watermark). non-trivial when >=1 forged packet was rejected by the real unprotect code \
          (and, for (d), >=1 genuine packet was then accepted by both receivers). distinct = hash of the scenario JSON."
     };
     let mut report = Report::new(args, "exploration", rule);
